@@ -60,28 +60,31 @@ type Machine struct {
 	methodMemo    map[methodKey]*ssa.Function
 	envIndex      map[*ssa.Function]map[ssa.Value]int
 
-	path             *Path
-	journal          []undo
-	journaling       bool
-	Steps            int64
-	StepBudget       int64
-	FuncHits         map[string]int64
-	SkippedInits     map[string]bool
-	pools            map[*value][]value
-	IntrHits         map[string]int64
-	Trace            bool
-	depth            int
-	Params           map[string]int64
-	KnownListed      map[string]bool
-	Witness          bool
-	TolerantInit     func(pkgPath string) bool
-	Stubs            map[string]*ssa.Function // full function name -> replacement (per-harness stubs of /repo functions)
-	NoopPkgs         func(pkgPath string) bool
-	sched            *scheduler
-	DecideProfile    map[string]int64
-	curFn            string
-	jsonAppendString *ssa.Function
-	witnessed        map[string]bool
+	path                                      *Path
+	journal                                   []undo
+	journaling                                bool
+	Steps                                     int64
+	StepBudget                                int64
+	FuncHits                                  map[string]int64
+	SkippedInits                              map[string]bool
+	pools                                     map[*value][]value
+	IntrHits                                  map[string]int64
+	Trace                                     bool
+	depth                                     int
+	Params                                    map[string]int64
+	KnownListed                               map[string]bool
+	Witness                                   bool
+	TolerantInit                              func(pkgPath string) bool
+	Stubs                                     map[string]*ssa.Function // full function name -> replacement (per-harness stubs of /repo functions)
+	NoopPkgs                                  func(pkgPath string) bool
+	CrossEvery                                int // cross-check every n-th assertion query with z3-new and cvc5 (0 = never)
+	crossCount                                int
+	CrossChecked, CrossAgreed, CrossUndecided int
+	sched                                     *scheduler
+	DecideProfile                             map[string]int64
+	curFn                                     string
+	jsonAppendString                          *ssa.Function
+	witnessed                                 map[string]bool
 }
 
 type methodKey struct {
